@@ -178,7 +178,7 @@ func c14Exec(t *testing.T, p c14Part, prefix []int, expect []string, trace bool)
 			} else {
 				for _, fp := range order {
 					want := last[fp]
-					if !strings.Contains(dl[0], want.name+":"+want.status+":"+want.v) {
+					if !strings.Contains(","+strings.Join(f.stage.deliveries()[0].Alerts, ",")+",", ","+want.name+":"+want.status+":"+want.v+",") {
 						x.Violation = "delivered-stale-status"
 					}
 				}
